@@ -103,6 +103,62 @@ def apply_model_ramp(fk, j, i):
             fk.items[int(tgt[5:])].update(v)
 
 
+def conv_diff(a, b, tol, floor=1e-3):
+    """Two converged states of the same problem (lists of field value arrays): (exceeds,
+    worst diff, its limit). Converged-state tolerance (DESIGN section 6) per field; dual
+    fields (pressure, volume ratio) are known only to Newton tolerance times the bulk
+    conditioning, five times the displacement rule."""
+    worst = (False, 0.0, 0.0)
+    for k, (x, y) in enumerate(zip(a, b)):
+        x, y = np.asarray(x), np.asarray(y)
+        scale = max(float(np.abs(y).max()), floor)
+        lim = (2e-5 if k == 0 else 1e-4) * scale * max(1.0, tol / 1.5e-8)
+        d = float(np.abs(x - y).max()) if x.shape == y.shape else float("inf")
+        if d > lim and (not worst[0] or d / lim > worst[1] / worst[2]):
+            worst = (True, d, lim)
+        elif not worst[0] and d > worst[1]:
+            worst = (False, d, lim)
+    return worst
+
+
+def crosses_instability(doc, engines):
+    """True if the tangent on the free unknowns is not positive definite at some converged state
+    of one of the histories: beyond a bifurcation / limit point several equilibria exist and
+    Newton may legitimately settle on different ones (outside the property's stable range)."""
+    from felupe.dof import partition
+
+    for eng in engines:
+        for cb in eng.callbacks:
+            fk = world.World(copy.deepcopy(eng.w.doc))
+            j = cb["step"]
+            try:
+                apply_model_ramp(fk, j, cb["substep"])
+                fk.set_values(cb["x"])
+                items = fk.steps[j].items
+                world.ref_fun_items(fk, items)
+                K = world.ref_jac_items(fk, items)
+            except Exception:
+                return True
+            dof0, dof1 = partition(fk.field, fk.steps[j].boundaries)
+            nu = fk.field.fields[0].values.size
+            d1 = dof1[dof1 < nu]
+            K11 = K[np.ix_(d1, d1)]
+            if len(fk.field.fields) > 1:
+                # condense the dual unknowns (saddle point): Schur complement on the displacements
+                d2 = dof1[dof1 >= nu]
+                if d2.size:
+                    try:
+                        K11 = K11 - K[np.ix_(d1, d2)] @ np.linalg.solve(K[np.ix_(d2, d2)], K[np.ix_(d2, d1)])
+                    except np.linalg.LinAlgError:
+                        return True
+            if K11.size == 0:
+                continue
+            ev = np.linalg.eigvalsh((K11 + K11.T) / 2)
+            if not np.all(np.isfinite(ev)) or ev[0] <= 1e-6 * abs(ev[-1]):
+                return True
+    return False
+
+
 def neo_hooke_energy(F, mu):
     """Independent isochoric Neo-Hooke energy per quadrature point."""
     C = np.einsum("ki...,kj...->ij...", F, F)
@@ -278,10 +334,10 @@ class C15Monitor(jobsim.Monitor):
         if not ramped_items:
             for key2, vals2, tol2 in self.levels:
                 if key2 == key:
-                    scale = max(float(np.abs(np.concatenate([v.ravel() for v in vals])).max()), 1e-3)
-                    d = max(float(np.abs(a - b).max()) for a, b in zip(vals, vals2))
-                    # converged-state tolerance (DESIGN section 6)
-                    if d > 2e-5 * scale * max(1.0, c["tol"] / 1.5e-8):
+                    bad, d, _lim = conv_diff(vals, vals2, c["tol"])
+                    if bad:
+                        if crosses_instability(self.doc, [eng]):
+                            raise Discard("history-crosses-instability")
                         self.V("repeat-level", f"two substeps with equal prescribed values and equal committed state converged to different fields (diff {d:.3e})", site="history.retrace")
                     self.log.count("repeat-level-compared")
                     break
@@ -464,6 +520,10 @@ def restart_check(doc, eng, ra, drop_state, log):
             for res in step.generate(verbose=False, **kw):
                 results.append(res)
     except ValueError:
+        if drop_state:
+            # Newton from a state without the stored (condensed / history) variables is another
+            # iteration history; its convergence is not part of the property
+            raise Discard("restart-without-state-did-not-converge")
         raise Violation(PROP, "restart-equivalence", "the restarted history failed to converge where the uninterrupted one converged", site="restart")
     tail = base[ra + 1 :]
     if len(results) != len(tail):
@@ -473,7 +533,13 @@ def restart_check(doc, eng, ra, drop_state, log):
         scale = max(float(np.abs(np.concatenate([v.ravel() for v in b["x"]])).max()), 1e-3)
         diff = max(float(np.abs(x - y).max()) for x, y in zip(va, b["x"]))
         tol = doc.get("newton", {}).get("tol", 1.5e-8)
-        lim = (1e-11 if not drop_state else 2e-5 * max(1.0, tol / 1.5e-8)) * scale
+        lim = 1e-11 * scale
+        if drop_state:
+            bad, diff, lim = conv_diff(va, b["x"], tol)
+            if bad and crosses_instability(doc, [eng]):
+                raise Discard("history-crosses-instability")
+            if not bad:
+                diff = 0.0
         if diff > lim:
             raise Violation(PROP, "restart-equivalence", f"substep {ra+1+n}: restarted field differs by {diff:.3e} (limit {lim:.1e})", site="restart.field")
     # state variables at the end
@@ -597,8 +663,10 @@ def retry_check(doc, eng, exc, log):
     for n, (a, b) in enumerate(zip(results, tail)):
         va = [f.values for f in a.x.fields]
         scale = max(float(np.abs(np.concatenate([v.ravel() for v in b["x"]])).max()), 1e-2)
-        diff = max(float(np.abs(x - y).max()) for x, y in zip(va, b["x"]))
-        if diff > 2e-5 * max(1.0, tol / 1.5e-8) * scale:
+        bad, diff, _lim = conv_diff(va, b["x"], tol, floor=1e-2)
+        if bad and crosses_instability(doc, [eng2]):
+            raise Discard("history-crosses-instability")
+        if bad:
             raise Violation(PROP, "retry-after-failure", f"substep {ncb+n} re-run after a failed attempt ({failed_kind}) differs from the fault-free history by {diff:.3e} (scale {scale:.2e})", site="+".join(sorted({it["type"] for it in doc["items"]})), fault=failed_kind)
     for k, (it_live, it_twin) in enumerate(zip(w.items, eng2.w.items)):
         sa = getattr(getattr(it_live, "results", None), "statevars", None)
@@ -640,9 +708,11 @@ def refine_check(doc, eng, log):
     a = eng.callbacks[-1]["x"]
     b = eng2.callbacks[-1]["x"]
     scale = max(float(np.abs(np.concatenate([v.ravel() for v in a])).max()), 1e-3)
-    diff = max(float(np.abs(x - y).max()) for x, y in zip(a, b))
     tol = doc.get("newton", {}).get("tol", 1.5e-8)
-    if diff > 2e-5 * scale * max(1.0, tol / 1.5e-8):
+    bad, diff, _lim = conv_diff(a, b, tol)
+    if bad and crosses_instability(doc, [eng, eng2]):
+        raise Discard("history-crosses-instability")
+    if bad:
         raise Violation(PROP, "path-independence", f"final state depends on the subdivision of the load path (diff {diff:.3e}, scale {scale:.2e})", site="history.refine")
     log.count("refined-twin-compared")
 
